@@ -46,6 +46,13 @@ class Comment(TypedExpression):
                 if inner.rsplit("\n", 1)[1].strip():
                     inner = inner.rstrip(" ")
                 indent_prefix = " " * node.start_point.column
+                previous = getattr(node, "prev_sibling", None)
+                if (
+                    previous is not None
+                    and previous.end_point.row == node.start_point.row
+                ):
+                    # Behind code on its line: later lines are not relative to it.
+                    indent_prefix = ""
                 lines = inner.split("\n")
                 normalized = [lines[0]]
                 for line in lines[1:]:
